@@ -201,7 +201,10 @@ class Engine:
         self.fresh_id = itertools.count()
         self.path_id = itertools.count()
         self.solver = z3.Solver()
-        self.solver.set("timeout", timeout_ms)
+        # deterministic resource limit for the feasibility queries (a wall-clock timeout would
+        # make path pruning, hence the set of generated obligations, depend on machine load)
+        self.solver.set("rlimit", 60000)
+        self.solver.set("timeout", 5000)
         self.yield_log = []           # concrete mode: actions emitted
         self.covers = []              # (site, pc) reachability checks
         self.delegated = []
@@ -1030,6 +1033,15 @@ class Engine:
         # spec intrinsics
         if name in ("forall", "exists"):
             return self.quantifier(name, n, st)
+        if name in ("forall_int", "exists_int"):      # unbounded: forall_int(lambda n, s: ...)
+            lam = n.args[0]
+            names = [a.arg for a in lam.args.args]
+            vs = [z3.Int("%s!%d" % (a, next(self.fresh_id))) for a in names]
+            st2 = st.fork()
+            st2.frames.append(Frame(dict(zip(names, vs)), len(st2.frames) - 1, st.frames[-1].func))
+            st2.spec_mode += 1
+            body = ZB(self.truth(self.ev(lam.body, st2), st2, n))
+            return z3.ForAll(vs, body) if name == "forall_int" else z3.Exists(vs, body)
         if name == "implies":
             a = self.truth(self.ev(n.args[0], st), st, n)
             if a is False:
@@ -1364,6 +1376,18 @@ class Engine:
             return self.concrete_call(c, bound, st, node)
         site = (st.frames[-1].func or self.fi).site(node, "call")
         cst = self.contract_state(c, bound, st)
+        if self.contract.recursion_measure and not st.spec_mode and \
+                c.name.split("#")[0] == self.contract.name.split("#")[0]:
+            mnode = self.reg.parse_expr(self.contract.recursion_measure)
+            callee_m = self.ev(mnode, cst)
+            own = State()
+            own.frames = [Frame(dict(st.old_vars or {}), None, None)]
+            own.heap = st.old_heap or {}
+            own.spec_mode = 1
+            own_m = self.ev(mnode, own)
+            self.oblige(st, And(self.cmp(ast.GtE(), callee_m, 0), self.cmp(ast.Lt(), callee_m, own_m)),
+                        "recursion_decreases:%s" % self.contract.recursion_measure, node, kind="termination",
+                        clause="recursive call on a strictly smaller %s" % self.contract.recursion_measure)
         # preconditions
         for label, expr in c.requires:
             cond = self.ev_spec(expr, cst, c)
